@@ -407,6 +407,7 @@ package dmap
 //@   requires #durations: 0 <= e.putConfig.PX && 0 <= e.putConfig.PXAT
 //@   ensures #ok: result.1 == nil && result.0 != nil
 //@   ensures #expire_is_not_a_put [C15 C09 C08]: result.0.kind == ite(e.putConfig.OnlyUpdateTTL, "dm.pexpire", "dm.put")
+//@   ensures #expire_carries_the_timeout [C15 C09]: e.putConfig.OnlyUpdateTTL ==> result.0.ms == e.timeout / 1000000
 //@   ensures #condition [C15 C08] internal: cmd.NX == e.putConfig.HasNX && cmd.XX == (e.putConfig.HasXX && !e.putConfig.HasNX)
 //@   ensures #expiry_px [C15 C08] internal: cmd.PX == ite(!e.putConfig.HasEX && e.putConfig.HasPX, e.putConfig.PX / 1000000, 0)
 //@   ensures #expiry_pxat [C15 C08] internal: cmd.PXAT == ite(!e.putConfig.HasEX && !e.putConfig.HasPX && !e.putConfig.HasEXAT && e.putConfig.HasPXAT, e.putConfig.PXAT / 1000000, 0)
